@@ -37,9 +37,9 @@ ASSUMPTIONS = ["input coordinates are read by the harness' own column reader; at
                "tolerances: 5e-4 A for 'did not move', 2e-3 A bond lengths, 3e-3 A 1-3 distances (the file has 3 decimals "
                "but moved atoms are compared in memory, so these are numerical-noise bounds)"]
 MIN = {"quick": {"input_heavy_atoms_compared": 15000, "torsion_calls_invivo": 200, "torsion_calls_direct": 1500,
-                 "moved_side_chain_atoms": 40, "no_move_option_runs": 30, "pka_route_runs": 20},
+                 "moved_side_chain_atoms": 40, "no_move_option_runs": 30, "pka_route_runs": 20, "written_coordinates_compared": 8000},
        "thorough": {"input_heavy_atoms_compared": 300000, "torsion_calls_invivo": 8000, "torsion_calls_direct": 60000,
-                    "moved_side_chain_atoms": 1500, "no_move_option_runs": 700, "pka_route_runs": 1000}}
+                    "moved_side_chain_atoms": 1500, "no_move_option_runs": 700, "pka_route_runs": 1000, "written_coordinates_compared": 500000}}
 FIXED = ("N", "CA", "C", "O", "OXT")
 
 
